@@ -58,6 +58,26 @@ type Descriptor struct {
 	resultFields   []reflection.ResultField
 	isParamObject  bool
 	paramFields    []reflection.ParamField
+
+	// outputs lists every descriptor produced by the same registration call
+	// (result object fields, multiple returns, interface aliases), this one
+	// included. One constructor invocation yields the instances of all of them.
+	outputs []*Descriptor
+
+	// resultField is the Out struct field this descriptor stands for
+	resultField string
+}
+
+// output returns the sibling descriptor of the same registration call that
+// matches, or nil.
+func (d *Descriptor) output(match func(*Descriptor) bool) *Descriptor {
+	for _, o := range d.outputs {
+		if o != nil && match(o) {
+			return o
+		}
+	}
+
+	return nil
 }
 
 // newDescriptor creates a new descriptor from a service with the given lifetime and options
